@@ -195,3 +195,62 @@ PROPS["C02"] = dict(
     level_text="bounded model checking of the carry/index/dispatch logic of multiplication with products abstracted, plus SMT proofs of the 64-bit word kernels from their MIR; "
                "the sub-quadratic algorithms are explicitly outside the claim",
 )
+
+PROPS["C13"] = dict(
+    inject=[("src/bigint.rs", "c13/helpers.rs"), ("src/biguint.rs", "c13/gcd.rs"), ("src/biguint/shift.rs", "c07/biguint_shift.rs")],
+    kani=[dict(filter_q="c13_q_", filter_t=["c13_q_", "c13_t_"], jobs=14, timeout_q=300, timeout_t=1200)],
+    functions=["Integer::{is_even,is_odd,inc,dec,is_multiple_of,gcd,lcm,gcd_lcm} for BigInt/BigUint", "Stein gcd (BigUint::gcd)"],
+    bounds_quick="parity, inc/dec (through zero and across digit boundaries) on 0..2-digit values of both signs; gcd zero rules; BigInt gcd = gcd of magnitudes (unsigned gcd under contract), non-negative; "
+                 "only-zero-is-a-multiple-of-zero; lcm(0,0), gcd_lcm(0,0); Stein gcd with the real code on all pairs of 3-bit values (4/5-bit thorough)",
+    outside="gcd/lcm/Bezout VALUES on full-width operands; extended_gcd (num-integer's generic default over BigInt division) and next/prev_multiple_of are not decided here (their division layer is C03's claim)",
+    trusted=STUBS_ADDSUB + ["contract stub (BigInt gcd harnesses): <BigUint as Integer>::gcd -> zero rules + arbitrary canonical g <= both operands", "fixed-word shift stand-ins (gcd harness)", "stub: Vec::shrink_to_fit -> no-op"],
+)
+
+PROPS["C10"] = dict(
+    inject=[("src/bigint.rs", "c10/forms.rs")],
+    kani=[dict(filter_q="c10_q_", filter_t=["c10_q_", "c10_t_"], jobs=14, timeout_q=300, timeout_t=1200)],
+    functions=["forwarding macros of src/macros.rs as instantiated for Add/Sub: promote_*_scalars, forward_all_scalar_binop_*, forward_*_assign; Add/Sub<u32|u64|u128|i32|i64|i128> for BigUint/BigInt; Sum/Product"],
+    bounds_quick="+ and -: {BigUint x unsigned scalars u8,u64,u128; BigInt x u8,u64,u128,i8,i64,i128} x forms {big op s, s op &big, op-assign, &big op &s} x big operand of 1..2 digits; "
+                 "the scalar ranges over its WHOLE type (MIN, -1, 0, MAX are inside every query); all 12 scalar types and all 9 forms in the thorough tier",
+    outside="* / % and pow forms (their forwarding layer is not decided here; the kernels' callers are covered under C02/C03/C12 for the big-by-big forms only); & | ^ have no scalar forms; shifts by every scalar type are C07's amount harnesses; big operands > 3 digits",
+    trusted=STUBS_ADDSUB + ["stub: Vec::shrink_to_fit -> no-op"],
+)
+
+
+PROPS["C15"] = dict(
+    inject=[("src/biguint/addition.rs", "c01/biguint_addition.rs"), ("src/biguint/subtraction.rs", "c01/biguint_subtraction.rs"),
+            ("src/biguint/division.rs", "c03/biguint_division.rs"), ("src/biguint/shift.rs", "c07/biguint_shift.rs"),
+            ("src/biguint/convert.rs", "c15/utf8.rs"), ("src/bigrand.rs", "c18/rand.rs")],
+    kani=[dict(filter_q=["c01_q_add2_", "c01_q_sub2_ge", "c01_q_addassign_", "c01_q_subassign_", "c01_q_subrefval_", "c03_q_digit_", "c03_q_single", "c15_q_"],
+               filter_t=["c01_q_add2_", "c01_t_add2_", "c01_q_sub2_ge", "c01_t_sub2_ge", "c01_q_addassign_", "c01_t_addassign_", "c01_q_subassign_", "c01_q_subrefval_", "c03_q_digit_", "c03_t_digit_", "c03_q_single", "c15_q_", "c15_t_"],
+               jobs=14, timeout_q=240, timeout_t=900),
+          dict(filter_q=["c18_q_gen_biguint"], filter_t=["c18_q_gen_biguint", "c18_t_gen_biguint"], jobs=14, timeout_q=240, timeout_t=900, features="rand", tgt="rand")],
+    engines=[dict(module="asmsym", func="run")],
+    functions=["schoolbook_add_assign_x86_64 / schoolbook_sub_assign_x86_64 (asm text: address sets, no store to rhs)", "div_wide (asm binding, #DE condition) and its callers",
+               "__add2 / sub2 / AddAssign / SubAssign caller-side slicing under CBMC pointer checks (exact-fit allocations)", "to_str_radix_reversed -> String::from_utf8_unchecked", "gen_biguint (u64 buffer viewed as u32 words)"],
+    bounds_quick="asm loops: inductive address-set obligation for any block count + bounded runs of 1..3 blocks (6 thorough); callers: the C01 kernel/Vec shapes up to 11 digits with CBMC's pointer, bounds and "
+                 "alignment checks on (the asm is replaced by raw-pointer models touching exactly the proven address set); div_wide precondition at every call of the single-digit loops (1..3 digits); "
+                 "ASCII-only output for all radices 2..=36 on 4-bit values (8-bit thorough); gen_biguint's reinterpreting slice for 9 bit sizes",
+    outside="what the register allocator does with an `in(reg)` operand that the template decrements (advisory lint, not a verdict); to_str_radix bytes for values above 8 bits (the digit loop is 64 divisions by a symbolic radix); "
+            "div_wide calls inside the Knuth-D core (guarded by `a0 < b0` - by reading, not by the solver)",
+    trusted=STUBS_ADDSUB + ["x86 ISA model of the asm engine (mov/adc/sbb/inc/dec/jnz/setc/clc/div); Rust-level disjointness of the &mut and & operand slices", "contract stub: div_wide (precondition asserted)",
+                            "stub: Vec::with_capacity -> empty growing vector (utf8 harness)"],
+    level_text="SMT symbolic execution of the asm text (address sets for any number of blocks) + bounded model checking of every caller with pointer checks; stated bounds",
+    technique="SMT (z3) symbolic execution of the inline asm + Kani/CBMC pointer-checked bounded model checking of the callers",
+)
+
+PROPS["C14"] = dict(
+    inject=[("src/biguint/subtraction.rs", "c01/biguint_subtraction.rs"), ("src/bigint.rs", "c03/bigint.rs"), ("src/biguint/division.rs", "c03/biguint_division.rs"),
+            ("src/biguint/shift.rs", "c07/biguint_shift.rs"), ("src/bigint.rs", "c05/bigint.rs"), ("src/bigint/convert.rs", "c06/parse.rs"),
+            ("src/biguint/power.rs", "c12/power.rs"), ("src/bigint.rs", "c13/helpers.rs"), ("src/bigint.rs", "c14/panics.rs"), ("src/bigrand.rs", "c18/rand.rs")],
+    kani=[dict(filter_q=["c01_q_sub2_lt_", "c01_q_subassign_lt", "c01_q_subrefval_lt", "c01_q_checked_sub", "c03_q_zero_", "c03_q_digit_zero", "c05_q_modpow_zero", "c05_q_modpow_neg", "c05_q_modinv_zero",
+                         "c06_q_radix_range", "c07_q_shl_neg", "c07_q_shr_neg", "c12_q_pow_big_overflow", "c12_q_modpow_zero", "c13_q_biguint_dec_zero", "c14_q_"],
+               filter_t=["_mp", "checked", "c14_"], jobs=14, timeout_q=240, timeout_t=900),
+          dict(filter_q=["c18_q_below_zero", "c18_q_urange_empty"], filter_t=["c18_q_below_zero", "c18_q_urange_empty"], jobs=14, timeout_q=240, timeout_t=900, features="rand", tgt="rand")],
+    functions=["documented panic set: division/remainder by zero (all BigInt/BigUint forms), BigUint subtraction below zero, negative shift amount, radix out of range, zero modulus, negative modpow exponent, "
+               "even root of a negative, zeroth root, empty/inverted random range, zero bound", "checked_add/sub/mul/div, CheckedEuclid::*"],
+    bounds_quick="one must-panic query per documented case over arbitrary operands of 0..2 digits (every path must panic: the marker after the call is unreachable) and one never-panics/None-exactly query per checked_* method; "
+                 "in addition EVERY harness of every other property runs with Kani's panic, overflow (dev-profile), bounds, unwrap and unwinding checks on, so it doubles as a 'does not fail outside the documented set' query for its operation and shape",
+    outside="internal assertions whose truth depends on the algebraic cores (Karatsuba carry asserts, Knuth-D debug_assert!(borrow == a0), Newton iteration termination); operands beyond the stated shapes",
+    trusted=STUBS_ADDSUB + ["contract stubs as listed under C03, C05, C12, C13; root models: <BigUint as Roots>::{nth_root,sqrt,cbrt} -> arbitrary canonical value (panics on n = 0)"],
+)
